@@ -49,14 +49,20 @@ TKeyTag ==
     /\ C("KeyTag", e.out = <<"ok", KeyTag(e.rd)>> /\ e.out2 = <<"ok", KeyTag(e.rd)>>)
     /\ Adv
 
+(* e.owner is the absolute owner; e.form says how it was handed over (absolute Name, absolute text, relative
+   text + origin, relative Name + origin).  The digest input is the same in every form.  A relative Name object
+   together with origin= is refused by the library (the documentation promises the origin only for text): free,
+   but an answer, if given, must be the right one.  SHA-1 creation refused by the default policy (RFC 8624): free. *)
 TDs ==
     /\ e.op = "ds"
-    /\ LET want == DsRdata(e.key, e.dt, e.dig)
+    /\ LET want    == DsRdata(e.key, e.dt, e.dig)
+           Must(r, w) == IF e.form = "relname" THEN IsOk(r) => r[2] = w ELSE r = <<"ok", w>>
+           May(r, w)  == IF e.dt = 1 \/ e.form = "relname" THEN IsOk(r) => r[2] = w ELSE r = <<"ok", w>>
        IN  /\ C("DsPreimage", e.pre = DsPreimage(e.owner, e.key))
-           /\ C("DsRdata", e.ds = <<"ok", want>> /\ e.dsc = <<"ok", want>>)
-           (* the default policy refuses to CREATE SHA-1 digests (RFC 8624): free *)
-           /\ C("CdsRdata", IF e.dt = 1 THEN IsOk(e.cds) => e.cds[2] = want ELSE e.cds = <<"ok", want>>)
-           /\ C("DsRdataset", IF e.dt = 1 THEN IsOk(e.dsset) => e.dsset[2] = <<want>> ELSE e.dsset = <<"ok", <<want>> >>)
+           /\ C("DsRdata", Must(e.ds, want) /\ Must(e.dsc, want))
+           /\ C("CdsRdata", May(e.cds, want))
+           /\ C("DsRdataset", May(e.dsset, <<want>>))
+           /\ C("CdsRdataset", May(e.cdsset, <<want>>))
     /\ Adv
 
 TNsec3 ==
